@@ -148,6 +148,13 @@ func chunkSource(ps []*progCase) string {
 }
 
 // generate runs the TLC generator for this tier and seed
+type nameCase struct {
+	Body string `json:"body"`
+	Name string `json:"name"`
+}
+
+var nameCases []nameCase // the keep-names programs of JsSemProgs!NameProgs (last generator run)
+
 func generate(r *core.Run, cfgName string, subst map[string]string) (*envTable, []*progCase, []*optCase, *tlcrun.Result) {
 	cfgPath := filepath.Join(r.Verif, "spec", "cfg", cfgName)
 	raw, err := os.ReadFile(cfgPath)
@@ -183,6 +190,16 @@ func generate(r *core.Run, cfgName string, subst map[string]string) (*envTable, 
 					return
 				}
 				table = &t
+				return
+			}
+			if head.Spec == "JsSemNames" {
+				var n struct {
+					Cases []nameCase `json:"cases"`
+				}
+				if err := json.Unmarshal(raw, &n); err != nil {
+					r.Infra("undecodable keep-names cases: %v", err)
+				}
+				nameCases = n.Cases
 				return
 			}
 			if head.Spec == "JsSemOpt" {
@@ -252,7 +269,7 @@ func programBinding(r *core.Run, cfgName string) {
 	r.Set("tlc_"+strings.TrimSuffix(cfgName, ".cfg"), map[string]interface{}{"generated": res.Generated, "distinct": res.Distinct, "cases": len(progs)})
 	var owg sync.WaitGroup
 	owg.Add(1)
-	go func() { defer owg.Done(); optionsBinding(r, table, opts) }()
+	go func() { defer owg.Done(); optionsBinding(r, table, opts); namesBinding(r, nameCases) }()
 	defer owg.Wait()
 	variants := variantsFor(r)
 	vnames := []string{}
@@ -743,4 +760,75 @@ func optionsBinding(r *core.Run, table *envTable, cases []*optCase) {
 	r.AddEvaluations(int64(nCases * len(variants) * len(table.Rows)))
 	r.Set("option_programs", nCases)
 	r.Logf("define/pure/drop/drop-labels: %d (program, define value) cases x %d minify sets, %d behave like their reference", nCases, len(variants), nOK)
+}
+
+// namesBinding: with keep-names, .name of functions and classes is part of the observable
+// behaviour even when identifiers are minified
+func namesBinding(r *core.Run, cases []nameCase) {
+	if len(cases) == 0 {
+		return
+	}
+	var variants []variant
+	for m := 0; m < 8; m++ {
+		s, w, i := m&1 != 0, m&2 != 0, m&4 != 0
+		if !r.Thorough() && !(i && (s == w)) { // quick: {I}, {S,W,I}
+			continue
+		}
+		variants = append(variants, variant{name: flagName(s, w, i) + "+keep", syntax: s, whitespace: w, identifiers: i, keepNames: true})
+	}
+	variants = append(variants, variant{name: "SI+keep+bundle", syntax: true, identifiers: true, keepNames: true, bundle: true})
+	var src strings.Builder
+	var units []unit
+	for k, c := range cases {
+		fmt.Fprintf(&src, "globalThis.main%d = function(a, b) { %s };\n", k, c.Body)
+		units = append(units, unit{ID: fmt.Sprint(k), Call: fmt.Sprintf("main%d()", k), Want: "all"})
+	}
+	j := job{ID: "names", Srcs: []string{src.String()}, Units: units}
+	for _, v := range variants {
+		out, err := build(src.String(), v)
+		if err != nil {
+			r.Infra("esbuild rejected the keep-names chunk under %s: %v", v.name, err)
+			return
+		}
+		j.Srcs = append(j.Srcs, out)
+	}
+	results := runNode(r, nodeIn{Budget: 16, Jobs: []job{j}}, 1, 5*time.Minute)
+	jr := results["names"]
+	if jr == nil {
+		return
+	}
+	for _, e := range jr.Errors {
+		if e.Variant == 0 {
+			r.Infra("V8 rejected the keep-names input chunk: %s", e.Error)
+			return
+		}
+		r.Violation(map[string]interface{}{"kind": "names-output-error", "variant": variants[e.Variant-1].name},
+			"the keep-names output chunk does not run: "+e.Error, map[string]interface{}{"input": src.String(), "output": j.Srcs[e.Variant], "error": e.Error})
+	}
+	ok := 0
+	for k, c := range cases {
+		ur := &jr.Units[k]
+		r.Case("names/"+c.Body, true)
+		want := "|ret:" + quoteJS(c.Name)
+		if got := ur.Traces["0"]; got != want {
+			r.Drift("keep-names case %q: the specification says %s, V8 says %s", c.Body, want, got)
+			continue
+		}
+		bad := false
+		for _, m := range ur.Mismatches {
+			bad = true
+			v := variants[m.Variant-1]
+			one := fmt.Sprintf("globalThis.main = function(a, b) { %s };", c.Body)
+			out, _ := build(one, v)
+			r.Violation(map[string]interface{}{"kind": "names", "body": c.Body, "variant": v.name},
+				fmt.Sprintf("with keep-names (%s) the .name observed by %q changes: input %s, output %s", v.name, c.Body, m.Input, m.Output),
+				map[string]interface{}{"input": one, "output": out, "options": v.options(), "v8_input": m.Input, "v8_output": m.Output, "spec": want})
+		}
+		if !bad {
+			ok++
+		}
+	}
+	r.AddEvaluations(int64(len(cases) * len(variants)))
+	r.Set("keep_names_programs", len(cases))
+	r.Logf("keep-names: %d programs x %d option sets, %d keep their names", len(cases), len(variants), ok)
 }
